@@ -196,7 +196,8 @@ def run_env_prop(prop, tier, seed, only):
         "rule": "one evaluation = one recorded reset/step event of the real implementation on which at least one clause of "
                 "this property's group had a true antecedent (TLC prints an APP marker per such line); distinct = distinct "
                 "(env, config, pre-state, action) among those",
-        "samples": samples or [{"note": "no applicable event"}], "per_env": per_env, "mc_runs": mc_list,
+        "samples": samples or [{"note": "no applicable event"}], "per_env": per_env,
+        "skipped_injections": [list(x) for x in out.get("skipped", [])], "mc_runs": mc_list,
         "checker_cmd": f"./check {prop} --tier {tier}", "exhaustive": False},
         ["implementation traces cover the sampled keys/policies/configurations listed in per_env; the MC runs are exhaustive "
          "for their small constants only", "float quantities are compared in 16-bit fixed point"])
